@@ -357,6 +357,77 @@ def native_interfaces(seed):
             bad.append(f"Collection(list).get{X}(sens) differs from the sum of src.get{X}(sens)")
         if not np.allclose(top(srcs, sens, sumup=True), ref.sum(axis=0), rtol=1e-9, atol=1e-16):
             bad.append(f"get{X}(list, sens, sumup=True) differs from the sum of src.get{X}(sens)")
+    bad += _native_decomposed(magpy, rng)
+    return bad
+
+
+def _native_decomposed(magpy, rng):
+    """sources with position AND orientation paths, a rotated sensor with several pixels, two meshes that share their first facet: the
+    batched evaluation must equal the evaluation decomposed into single poses and single observer points (source by source, path entry by
+    path entry, pixel by pixel), and the core function applied in the source frame"""
+    from scipy.spatial.transform import Rotation as R
+
+    from magpylib._src.fields.field_BH_cuboid import BHJM_magnet_cuboid
+
+    bad = []
+    m = 3
+    tetra = lambda sh: dict(vertices=np.array([(0, 0, 0), (1, 0, 0), (0, 1, 0), (0, 0, 1 + sh)], dtype=float))
+
+    def mk(single=None):
+        kw = lambda i: {} if single is not None else dict(position=P[i], orientation=O[i])
+        return [magpy.magnet.Cuboid(dimension=(1, 2, 3), polarization=(.1, .2, .3), **kw(0)),
+                magpy.magnet.Cuboid(dimension=(2, 1, 1), polarization=(0, .5, .3), **kw(1)),
+                magpy.magnet.TriangularMesh.from_ConvexHull(points=tetra(0.0)["vertices"], polarization=(.1, .2, .3), **kw(2)),
+                magpy.magnet.TriangularMesh.from_ConvexHull(points=tetra(0.7)["vertices"], polarization=(.1, .2, .3), **kw(3)),
+                magpy.misc.Dipole(moment=(1, 2, 3), **kw(4)),
+                magpy.current.Circle(diameter=2, current=1.2, **kw(5))]
+
+    P = rng.normal(size=(6, m, 3))
+    O = [R.from_rotvec(rng.normal(size=(m, 3))) for _ in range(6)]
+    srcs = mk()
+    # the two meshes must share their first facet (order of from_ConvexHull is not guaranteed): rebuild from explicit faces
+    v0, v1 = tetra(0.0)["vertices"], tetra(0.7)["vertices"]
+    faces = np.array([(0, 2, 1), (0, 1, 3), (0, 3, 2), (1, 2, 3)])
+    for k, v in ((2, v0), (3, v1)):
+        srcs[k] = magpy.magnet.TriangularMesh(vertices=v, faces=faces, polarization=(.1, .2, .3), position=P[k], orientation=O[k])
+    sens = magpy.Sensor(pixel=rng.normal(size=(2, 2, 3)) * 0.3, position=(4, 5, 6), orientation=R.from_rotvec((0.3, -0.2, 0.5)))
+    pix_g = sens.position + sens.orientation.apply(sens.pixel.reshape(-1, 3))
+    for X in "BH":
+        full = getattr(magpy, "get" + X)(srcs, sens)  # (6, m, 2, 2, 3)
+        if full.shape != (6, m, 2, 2, 3):
+            bad.append(f"get{X}(sources with paths, sensor with 2x2 pixels) has shape {full.shape}")
+            continue
+        for si, s in enumerate(srcs):
+            for pi in range(m):
+                one = s.copy(position=P[si][pi], orientation=O[si][pi])
+                for qi, pt in enumerate(pix_g):
+                    f1 = getattr(one, "get" + X)(pt)  # one pose, one observer point, global frame
+                    exp = sens.orientation.inv().apply(f1)
+                    got = full[si, pi].reshape(-1, 3)[qi]
+                    if not np.allclose(got, exp, rtol=1e-8, atol=1e-14):
+                        bad.append(f"get{X}: source {si} ({type(s).__name__}) path entry {pi} pixel {qi}: batched evaluation differs from the single-pose single-point evaluation")
+                        break
+                else:
+                    continue
+                break
+        # observers inside one mesh but outside the other one, which shares its first facet: list form vs one source at a time vs functional form
+        a, b = (srcs[k].copy(position=(0, 0, 0), orientation=None) for k in (2, 3))
+        pts = np.array([(0.1, 0.1, 0.9), (0.1, 0.1, 0.1), (2.0, 2.0, 2.0), (0.05, 0.2, 1.2)])
+        both = getattr(magpy, "get" + X)([a, b], pts)
+        sep = np.array([getattr(a, "get" + X)(pts), getattr(b, "get" + X)(pts)])
+        fun = np.array([getattr(magpy, "get" + X)("TriangularMesh", pts, mesh=o.mesh, polarization=o.polarization) for o in (a, b)])
+        if not np.allclose(both, sep, rtol=1e-9, atol=1e-15):
+            bad.append(f"get{X}([mesh, mesh'], points inside mesh' only) differs from evaluating the two meshes one at a time")
+        if not np.allclose(fun, sep, rtol=1e-9, atol=1e-15):
+            bad.append(f"get{X}('TriangularMesh', ..., mesh=...) differs from the object evaluation")
+        # core function in the source frame (Cuboid 0)
+        for pi in range(m):
+            loc = O[0][pi].inv().apply(pix_g - P[0][pi])
+            core = BHJM_magnet_cuboid(field=X, observers=loc, dimension=np.tile((1.0, 2.0, 3.0), (4, 1)), polarization=np.tile((.1, .2, .3), (4, 1)))
+            exp = sens.orientation.inv().apply(O[0][pi].apply(core))
+            if not np.allclose(full[0, pi].reshape(-1, 3), exp, rtol=1e-8, atol=1e-14):
+                bad.append(f"get{X}: Cuboid with a path, path entry {pi}: differs from the core function evaluated in the source frame")
+                break
     return bad
 
 
